@@ -142,3 +142,31 @@ package sipsp
 //@   loop 0 "for _, m := range mthNameLookup[i]"
 //@     invariant -1 <= rangeindex && rangeindex < len(mthNameLookup[i])
 //@     decreases len(mthNameLookup[i]) - rangeindex
+
+// ---- name-addr values (From / To / Contact / PAI) ----
+
+//@ func pUInt64Val(b) (n, err)
+//@   loop 0 "for _, c := range b"
+//@     invariant -1 <= rangeindex && rangeindex < len(b) && err == ErrHdrOk
+//@     decreases len(b) - rangeindex
+//@   ensures err == ErrHdrOk || err == ErrHdrValTooLong || err == ErrHdrValNotNumber
+
+//@ func setFromParamVal(buf, pf) (err)
+//@   requires bufOK(buf) && pf != nil && 0 <= pf.pstart && pf.pend <= len(buf) && 0 <= pf.vstart && pf.vend <= len(buf)
+//@   modifies pf.Tag, pf.HasExpires, pf.Expires, pf.Q, pf.LR, pf.ParamErr, pf.ErrOffs, pf.pstart, pf.pend, pf.vstart, pf.vend
+//@   loop 0 "for ; i < pf.vend && buf[i] != '.'; i++"
+//@     invariant pf.vstart <= i && i <= pf.vend && pf.vstart < pf.vend
+//@     decreases pf.vend - i
+//@   ensures pf.pstart == 0 && pf.pend == 0 && pf.vstart == 0 && pf.vend == 0
+//@   ensures pf.Tag == pf_old.Tag || (int(pf.Tag.Offs) == pf_old.vstart && fend(pf.Tag) == pf_old.vend && pf_old.vstart < pf_old.vend)
+
+//@ func ParseNameAddrPVal(h, buf, offs, pfrom) (n, err)
+//@   requires bufOK(buf) && 0 <= offs && offs <= len(buf) && pfrom != nil && fbOK(pfrom, offs, pfrom.soffs)
+//@   modifies *pfrom
+//@   loop 0 "for i < len(buf)"
+//@     invariant offs <= i && i <= len(buf) && fbOK(pfrom, i, s)
+//@     decreases len(buf) - i
+//@   ensures 0 <= n && n <= len(buf)
+//@   ensures err == ErrHdrOk || err == ErrHdrMoreValues || err == ErrHdrMoreBytes ==> offs <= n
+//@   ensures err == ErrHdrMoreBytes ==> fbOK(pfrom, n, pfrom.soffs)
+//@   ensures fbWithin(pfrom, len(buf))
